@@ -347,3 +347,35 @@ class _init_io:
     modifies = ['state["next_bit"]', 'state["current_byte"]', 'state["_file"]', "f.fpos"]
     raises = {}
     ensures = ["dinv(state)", 'state["_file"] == f', "dpos(state) == 8 * old(fpos(f))", "content(f) == old(content(f))", "flen(f) == old(flen(f))"]
+
+
+# ---- native generators (replay / bounded stand-in) ------------------------------------------------
+
+
+def gen_state(rng):
+    import io
+    from vc2_conformance.pseudocode.state import State
+    from vc2_conformance.decoder import io as dio
+
+    f = io.BytesIO(bytes(rng.choice([0, 0, 255, 128, 1, rng.randrange(256)]) for _ in range(rng.randint(0, 6))))
+    state = State()
+    dio.init_io(state, f)
+    try:
+        for _ in range(rng.randint(0, 12)):
+            dio.read_bit(state)
+    except Exception:
+        pass
+    if rng.random() < 0.6:
+        state["bits_left"] = rng.randint(0, 30)
+    return state
+
+
+def gen_file(rng):
+    import io
+
+    f = io.BytesIO(bytes(rng.randrange(256) for _ in range(rng.randint(0, 5))))
+    f.seek(rng.randint(0, len(f.getvalue())))
+    return f
+
+
+GENERATORS = {"dict:State": gen_state, "file": gen_file}
